@@ -355,7 +355,11 @@ func fit(r *rand.Rand, t reflect.Type, c *FitCfg, sb *strings.Builder, depth int
 		sb.WriteByte(']')
 	case reflect.Array:
 		if t.Elem() == byteType { // [N]byte: a Base64 string of exactly N bytes
-			b := make([]byte, t.Len())
+			n := t.Len()
+			if c.ShortArray && r.IntN(3) == 0 {
+				n = r.IntN(n + 1) // fewer bytes than the array holds (accepted under UnmarshalArrayFromAnyLength)
+			}
+			b := make([]byte, n)
 			for i := range b {
 				b[i] = byte(1 + r.IntN(255))
 			}
